@@ -282,6 +282,8 @@ type Prop struct {
 	Rule        string
 	Assumptions []string
 	Workloads   []Workload
+	// Needs: extra build artefacts (build.sh variants: owsim, owsim-race, owsingle, libow)
+	Needs []string
 	// RequireTags must all be observed in a run, otherwise the run "observed nothing"
 	RequireTags func(tier string) []string
 	Exhaustive  func(tier string) bool
